@@ -53,6 +53,7 @@ def drive(mod, tier):
     seed = core.verif_seed()
     nj = core.jobs()
     prop = mod.PROP
+    os.environ["VERIF_TIER_INTERNAL"] = tier
     known = core.known_for(prop)
     agg = {"cnt": Counter(), "samples": [], "viols": []}
     for s in mod.SETS:
